@@ -60,6 +60,16 @@ def Problem.renameConflictingSymbols (p : Problem) : Problem :=
   let conf := p.preds.filter (·.arity = 0)
   { p with formulas := p.formulas.map fun a => { a with formula := a.formula.renameSym conf } }
 
+/-- Does `rename_conflicting_symbols` change the problem's meaning? A renamed constant `c__s` denotes a
+    different element of the standard domain; this is harmless only if the renaming is injective on
+    the problem's symbols and preserves their (lexicographic) order. Returns the offending pairs. -/
+def Problem.renameOrderIssues (p : Problem) : List (String × String) :=
+  let conf := p.preds.filter (·.arity = 0)
+  let r : String → String := fun s => if (⟨s, 0⟩ : Pred) ∈ conf then s ++ "__s" else s
+  let syms := p.symbols
+  (syms.flatMap fun a => syms.filterMap fun b =>
+    if a < b ∧ ¬ (r a < r b) then some (a, b) else none)
+
 def Problem.uniqueNames (p : Problem) : Problem :=
   { p with formulas := (indexFrom 0 p.formulas).map fun (i, a) =>
       { a with name := "formula_" ++ toString i ++ "_" ++ a.name } }
